@@ -96,4 +96,902 @@ theorem partition_points_exact (xs : List Tablet) (h : Inv xs) (x : Int) :
         = (xs.takeWhile (fun t : Tablet => decide (t.first ≤ x))).length :=
   ⟨partitionPoint_eq _ xs (inv_part_last xs h x), partitionPoint_eq _ xs (inv_part_first xs h x)⟩
 
+/-! ### `add_tablet` -/
+
+private theorem filter_split (xs : List Tablet) (h : Inv xs) (nf nl : Int) (hn : nf ≤ nl) :
+    xs.filter (fun t => decide (t.last < nf)) ++ xs.filter (fun t => decide (nl < t.first))
+      = xs.filter (fun t => decide (t.last < nf) || decide (nl < t.first)) := by
+  induction xs with
+  | nil => rfl
+  | cons a xs ih =>
+    have hp := inv_part_last (a :: xs) h nf
+    obtain ⟨h1, h2⟩ := h
+    have hinv : Inv xs := ⟨fun t ht => h1 t (List.mem_cons_of_mem _ ht), (List.pairwise_cons.mp h2).2⟩
+    have ha := h1 a List.mem_cons_self
+    by_cases hA : a.last < nf
+    · have hB : ¬ (nl < a.first) := by omega
+      simp only [List.filter_cons, hA, hB, decide_true, decide_false, if_true, Bool.true_or,
+        Bool.false_eq_true, if_false, List.cons_append]
+      rw [ih hinv]
+    · have hall := partitioned_tail_false _ a xs hp (by simpa using hA)
+      have e1 : xs.filter (fun t => decide (t.last < nf)) = [] :=
+        List.filter_eq_nil_iff.mpr (fun b hb => by simpa using hall b hb)
+      have e2 : xs.filter (fun t => decide (t.last < nf) || decide (nl < t.first))
+          = xs.filter (fun t => decide (nl < t.first)) :=
+        List.filter_congr (fun b hb => by
+          have := hall b hb
+          simp only [decide_eq_false_iff_not] at this
+          simp [this])
+      simp only [List.filter_cons, hA, decide_false, Bool.false_eq_true, if_false, Bool.false_or, e1, e2,
+        List.nil_append]
+
+/-- **What `add_tablet` computes** on a well-formed table: the tablets ending before the new one, the new
+one, the tablets starting after it — and no panic (`left ≤ right`). -/
+theorem addTabletList_eq (xs : List Tablet) (new : Tablet) (h : Inv xs) (hn : new.first ≤ new.last) :
+    addTabletList xs new = some (xs.filter (fun t => decide (t.last < new.first)) ++
+      new :: xs.filter (fun t => decide (new.last < t.first))) := by
+  have hp1 := inv_part_last xs h new.first
+  have hp2 := inv_part_first xs h new.last
+  unfold addTabletList
+  rw [partitionPoint_eq _ xs hp1, partitionPoint_eq _ xs hp2]
+  have hle : (xs.takeWhile (fun t : Tablet => decide (t.last < new.first))).length
+      ≤ (xs.takeWhile (fun t : Tablet => decide (t.first ≤ new.last))).length := by
+    apply takeWhile_length_mono
+    intro t ht hp
+    have := h.1 t ht
+    simp only [decide_eq_true_eq] at hp ⊢
+    omega
+  simp only [hle, if_true]
+  rw [take_takeWhile_length, drop_takeWhile_length, takeWhile_eq_filter _ xs hp1, dropWhile_eq_filter _ xs hp2]
+  congr 3
+  apply List.filter_congr
+  intro t _
+  by_cases hc : t.first ≤ new.last <;> simp [hc] <;> omega
+
+/-- `add_tablet` never panics on a well-formed table and a non-empty range. -/
+theorem addTablet_no_panic (xs : List Tablet) (new : Tablet) (h : Inv xs) (hn : new.first ≤ new.last) :
+    (addTabletList xs new).isSome := by
+  rw [addTabletList_eq xs new h hn]; rfl
+
+/-- **An insert removes exactly the overlapping tablets.**  The result is `L ++ new :: R` where `L ++ R` is the
+old list with precisely the tablets overlapping the new range filtered out (order and multiplicity kept),
+`L` lies entirely before and `R` entirely after the new range. -/
+theorem add_removes_exactly_overlaps (xs : List Tablet) (new : Tablet) (h : Inv xs) (hn : new.first ≤ new.last) :
+    ∃ L R, addTabletList xs new = some (L ++ new :: R) ∧
+      L ++ R = xs.filter (fun t => !overlaps t new) ∧
+      (∀ t ∈ L, t.last < new.first) ∧ (∀ t ∈ R, new.last < t.first) := by
+  refine ⟨_, _, addTabletList_eq xs new h hn, ?_, ?_, ?_⟩
+  · rw [filter_split xs h _ _ hn]
+    apply List.filter_congr
+    intro t _
+    simp only [overlaps]
+    by_cases h1 : t.last < new.first <;> by_cases h2 : new.last < t.first <;> simp [h1, h2] <;> omega
+  · intro t ht; simpa using (List.mem_filter.mp ht).2
+  · intro t ht; simpa using (List.mem_filter.mp ht).2
+
+/-- a tablet survives an insert iff it does not overlap the new range (membership form) -/
+theorem add_keeps_iff (xs : List Tablet) (new : Tablet) (h : Inv xs) (hn : new.first ≤ new.last)
+    (ys : List Tablet) (hy : addTabletList xs new = some ys) (t : Tablet) :
+    t ∈ ys ↔ t = new ∨ (t ∈ xs ∧ overlaps t new = false) := by
+  rw [addTabletList_eq xs new h hn] at hy
+  cases hy
+  simp only [List.mem_append, List.mem_cons, List.mem_filter, decide_eq_true_eq, overlaps]
+  constructor
+  · rintro (⟨h1, h2⟩ | rfl | ⟨h1, h2⟩)
+    · exact Or.inr ⟨h1, by simp; omega⟩
+    · exact Or.inl rfl
+    · exact Or.inr ⟨h1, by simp; omega⟩
+  · rintro (rfl | ⟨h1, h2⟩)
+    · exact Or.inr (Or.inl rfl)
+    · simp only [Bool.and_eq_false_iff, decide_eq_false_iff_not] at h2
+      by_cases hc : t.last < new.first
+      · exact Or.inl ⟨h1, hc⟩
+      · exact Or.inr (Or.inr ⟨h1, by omega⟩)
+
+/-- **`Inv` is preserved by `add_tablet`.** -/
+theorem inv_addTablet (xs : List Tablet) (new : Tablet) (h : Inv xs) (hn : new.first ≤ new.last)
+    (ys : List Tablet) (hy : addTabletList xs new = some ys) : Inv ys := by
+  rw [addTabletList_eq xs new h hn] at hy
+  cases hy
+  obtain ⟨h1, h2⟩ := h
+  constructor
+  · intro t ht
+    simp only [List.mem_append, List.mem_cons, List.mem_filter] at ht
+    rcases ht with ⟨ht, _⟩ | rfl | ⟨ht, _⟩
+    · exact h1 t ht
+    · exact hn
+    · exact h1 t ht
+  · rw [List.pairwise_append]
+    refine ⟨h2.filter _, ?_, ?_⟩
+    · rw [List.pairwise_cons]
+      refine ⟨?_, h2.filter _⟩
+      intro b hb
+      simpa using (List.mem_filter.mp hb).2
+    · intro a ha b hb
+      have haL : a.last < new.first := by simpa using (List.mem_filter.mp ha).2
+      rcases List.mem_cons.mp hb with rfl | hb'
+      · exact haL
+      · have : new.last < b.first := by simpa using (List.mem_filter.mp hb').2
+        omega
+
+-- non-vacuity and the named boundary cases: touching ranges stay, containment both ways, `last = MAX`, `first = MIN+1`
+private def tb (f l : Int) : Tablet := ⟨f, l, ⟨[], []⟩, none⟩
+example : Inv [tb 1 3, tb 4 6, tb 9 9] := by
+  refine ⟨by decide, ?_⟩
+  simp [tb]
+example : addTabletList [tb 1 3, tb 4 6, tb 9 9] (tb 7 8) = some [tb 1 3, tb 4 6, tb 7 8, tb 9 9] := by decide
+example : addTabletList [tb 1 3, tb 4 6, tb 9 9] (tb 6 9) = some [tb 1 3, tb 6 9] := by decide
+example : addTabletList [tb 1 3, tb 4 6, tb 9 9] (tb 5 5) = some [tb 1 3, tb 5 5, tb 9 9] := by decide
+example : addTabletList [tb 1 3, tb 4 6, tb 9 9] (tb 0 10) = some [tb 0 10] := by decide
+example : addTabletList [tb (i64Min + 1) 3, tb 4 i64Max] (tb 3 4) = some [tb 3 4] := by decide
+example : addTabletList [tb (i64Min + 1) 3, tb 5 i64Max] (tb 4 4) = some [tb (i64Min + 1) 3, tb 4 4, tb 5 i64Max] := by
+  decide
+/-- an ill-formed tablet (`first > last`, never produced by `from_custom_payload`) can make `drain` panic -/
+example : addTabletList [tb 1 3, tb 4 6, tb 9 9] (tb 8 2) = none := by decide
+
+/-! ### `tablet_for_token` -/
+
+private theorem inv_tail {a : Tablet} {xs : List Tablet} (h : Inv (a :: xs)) : Inv xs :=
+  ⟨fun t ht => h.1 t (List.mem_cons_of_mem _ ht), (List.pairwise_cons.mp h.2).2⟩
+
+/-- Under the invariant the binary-search lookup is the linear search for the covering tablet. -/
+theorem lookup_eq_find (xs : List Tablet) (h : Inv xs) (tok : Int) :
+    tabletForToken xs tok = xs.find? (covers tok) := by
+  have hp := inv_part_last xs h tok
+  unfold tabletForToken
+  simp only []
+  rw [partitionPoint_eq _ xs hp]
+  have e : xs[(xs.takeWhile (fun t : Tablet => decide (t.last < tok))).length]?
+      = (xs.filter (fun t : Tablet => !decide (t.last < tok))).head? := by
+    rw [← dropWhile_eq_filter _ xs hp, ← drop_takeWhile_length, List.head?_drop]
+  rw [e, List.head?_filter]
+  clear e hp
+  induction xs with
+  | nil => rfl
+  | cons a xs ih =>
+    have ha := h.1 a List.mem_cons_self
+    by_cases hl : a.last < tok
+    · have hc : covers tok a = false := by simp [covers]; omega
+      simp only [List.find?_cons, hl, hc, decide_true, Bool.not_true]
+      exact ih (inv_tail h)
+    · simp only [List.find?_cons, hl, decide_false, Bool.not_false]
+      by_cases hf : a.first ≤ tok
+      · have hc : covers tok a = true := by simp [covers]; omega
+        simp [hf, hc]
+      · have hc : covers tok a = false := by simp [covers]; omega
+        simp only [hf, if_false, hc]
+        symm
+        rw [List.find?_eq_none]
+        intro b hb
+        have := (List.pairwise_cons.mp h.2).1 b hb
+        simp [covers]; omega
+
+/-- The answer is a member of the list that covers the token, and it is the only such member. -/
+theorem lookup_some_iff (xs : List Tablet) (h : Inv xs) (tok : Int) (u : Tablet) :
+    tabletForToken xs tok = some u ↔ u ∈ xs ∧ u.first ≤ tok ∧ tok ≤ u.last := by
+  rw [lookup_eq_find xs h]
+  constructor
+  · intro hf
+    have h1 := List.find?_some hf
+    have h2 := List.mem_of_find?_eq_some hf
+    simp only [covers, Bool.and_eq_true, decide_eq_true_eq] at h1
+    exact ⟨h2, h1⟩
+  · rintro ⟨hm, hc1, hc2⟩
+    have hcu : covers tok u = true := by simp [covers]; omega
+    cases hf : xs.find? (covers tok) with
+    | none =>
+      have := List.find?_eq_none.mp hf u hm
+      simp [hcu] at this
+    | some v =>
+      have hv := List.find?_some hf
+      have hvm := List.mem_of_find?_eq_some hf
+      simp only [covers, Bool.and_eq_true, decide_eq_true_eq] at hv
+      rcases pairwise_trichotomy _ xs h.2 u hm v hvm with e | r | r
+      · rw [e]
+      · omega
+      · omega
+
+theorem lookup_none_iff (xs : List Tablet) (h : Inv xs) (tok : Int) :
+    tabletForToken xs tok = none ↔ ∀ u ∈ xs, ¬ (u.first ≤ tok ∧ tok ≤ u.last) := by
+  rw [lookup_eq_find xs h, List.find?_eq_none]
+  constructor
+  · intro hh u hu hc
+    have := hh u hu
+    simp [covers] at this
+    omega
+  · intro hh u hu
+    have := hh u hu
+    simp [covers]; omega
+
+example : tabletForToken [tb 1 3, tb 4 6, tb 9 9] 4 = some (tb 4 6) ∧ tabletForToken [tb 1 3, tb 4 6, tb 9 9] 7 = none ∧
+    tabletForToken [tb 1 3, tb 4 i64Max] i64Max = some (tb 4 i64Max) := by decide
+
+/-! ### maintenance -/
+
+/-- What maintenance does to one tablet (the specification of the three passes): re-resolve its unknown
+replicas or discard it, discard it if a replica sits on a removed node, swap in re-created `Node` objects. -/
+def maintTablet (removed : List Nat) (nodes recreated : List (Nat × Node)) (t : Tablet) : Option Tablet :=
+  ((reResolve (fun id => alGet id nodes) t).bind
+    (fun t => if touchesRemoved removed t then none else some t)).map (updateStale recreated)
+
+/-- the flag may be falsely true, never falsely false -/
+def FlagInv (tbl : Table) : Prop := tbl.hasUnknown = false → ∀ t ∈ tbl.tablets, t.failed = none
+
+private theorem updateStale_nil (t : Tablet) : updateStale [] t = t := by
+  obtain ⟨f, l, ⟨all, perDc⟩, fl⟩ := t
+  have h1 : all.any (isStaleRep []) = false := by
+    simp [isStaleRep, alGet]
+  have h2 : all.map (swapNode []) = all := by
+    have : swapNode [] = id := by funext p; simp [swapNode, alGet]
+    rw [this, List.map_id]
+  simp only [updateStale, h1, h2, Bool.false_eq_true, if_false]
+
+private theorem touchesRemoved_nil (t : Tablet) : touchesRemoved [] t = false := by
+  simp [touchesRemoved]
+
+/-- **The three gated passes of `perform_maintenance` are one `filterMap`** of the per-tablet specification
+(the `has_unknown_replicas` gate is sound because of `FlagInv`; the two `is_empty` gates skip no-ops). -/
+theorem maintenance_eq_filterMap (tbl : Table) (hflag : FlagInv tbl) (rm : List Nat) (ns rc : List (Nat × Node)) :
+    (tbl.maintenance rm ns rc).tablets = tbl.tablets.filterMap (maintTablet rm ns rc) ∧
+    (tbl.maintenance rm ns rc).hasUnknown = false := by
+  refine ⟨?_, rfl⟩
+  unfold Table.maintenance
+  simp only []
+  -- pass 1
+  have e1 : (if tbl.hasUnknown = true then tbl.tablets.filterMap (reResolve (fun id => alGet id ns)) else tbl.tablets)
+      = tbl.tablets.filterMap (reResolve (fun id => alGet id ns)) := by
+    cases hu : tbl.hasUnknown
+    · have hall := hflag hu
+      simp only [Bool.false_eq_true, if_false]
+      symm
+      have : tbl.tablets.filterMap (reResolve (fun id => alGet id ns)) = tbl.tablets.filterMap some := by
+        apply filterMap_congr'
+        intro t ht
+        simp [reResolve, hall t ht]
+      rw [this, List.filterMap_some]
+    · simp
+  -- pass 2
+  have e2 : ∀ l : List Tablet, (if rm.isEmpty = true then l else l.filter (fun t => !touchesRemoved rm t))
+      = l.filterMap (fun t => if touchesRemoved rm t then none else some t) := by
+    intro l
+    have hf : l.filter (fun t => !touchesRemoved rm t) = l.filterMap (fun t => if touchesRemoved rm t then none else some t) := by
+      induction l with
+      | nil => rfl
+      | cons a l ih => cases ha : touchesRemoved rm a <;> simp [ha, ih]
+    cases hr : rm.isEmpty
+    · simp only [Bool.false_eq_true, if_false]; exact hf
+    · have : rm = [] := List.isEmpty_iff.mp hr
+      subst this
+      simp only [if_true]
+      have : (fun t : Tablet => if touchesRemoved [] t = true then none else some t) = some := by
+        funext t; simp [touchesRemoved_nil]
+      rw [this, List.filterMap_some]
+  -- pass 3
+  have e3 : ∀ l : List Tablet, (if rc.isEmpty = true then l else l.map (updateStale rc)) = l.map (updateStale rc) := by
+    intro l
+    cases hr : rc.isEmpty
+    · simp
+    · have : rc = [] := List.isEmpty_iff.mp hr
+      subst this
+      have : updateStale [] = id := by funext t; exact updateStale_nil t
+      simp [this]
+  rw [e1, e2, e3]
+  simp only [List.map_filterMap, List.filterMap_filterMap]
+  rfl
+
+private theorem reResolve_range {tr : Nat → Option Node} {t u : Tablet} (h : reResolve tr t = some u) :
+    (u.first = t.first ∧ u.last = t.last) ∧ u.failed = none ∨ u = t := by
+  unfold reResolve at h
+  cases hf : t.failed with
+  | none =>
+    simp only [hf, Option.some.injEq] at h
+    right; exact h.symm
+  | some raw =>
+    simp only [hf, fromRawReplicas] at h
+    by_cases hc : (resolveFailed tr raw).isEmpty = true
+    · simp only [hc, if_true, Option.some.injEq] at h
+      left; rw [← h]; exact ⟨⟨rfl, rfl⟩, rfl⟩
+    · simp [hc] at h
+
+private theorem maintTablet_some {rm : List Nat} {ns rc : List (Nat × Node)} {t u : Tablet}
+    (h : maintTablet rm ns rc t = some u) :
+    ∃ t1, reResolve (fun id => alGet id ns) t = some t1 ∧ touchesRemoved rm t1 = false ∧ u = updateStale rc t1 := by
+  unfold maintTablet at h
+  simp only [Option.map_eq_some_iff, Option.bind_eq_some_iff] at h
+  obtain ⟨t2, ⟨t1, h1, h2⟩, h3⟩ := h
+  cases htr : touchesRemoved rm t1
+  · simp only [htr, Bool.false_eq_true, if_false, Option.some.injEq] at h2
+    exact ⟨t1, h1, htr, by rw [h2, h3]⟩
+  · simp [htr] at h2
+
+/-- maintenance keeps or discards a tablet; it never changes its range -/
+theorem maintTablet_range {rm : List Nat} {ns rc : List (Nat × Node)} {t u : Tablet}
+    (h : maintTablet rm ns rc t = some u) : u.first = t.first ∧ u.last = t.last := by
+  obtain ⟨t1, h1, _, rfl⟩ := maintTablet_some h
+  have : (updateStale rc t1).first = t1.first ∧ (updateStale rc t1).last = t1.last := ⟨rfl, rfl⟩
+  rcases reResolve_range h1 with ⟨⟨a, b⟩, _⟩ | e
+  · rw [this.1, this.2, a, b]; exact ⟨rfl, rfl⟩
+  · rw [this.1, this.2, e]; exact ⟨rfl, rfl⟩
+
+/-- after maintenance no tablet has unresolved replicas (so clearing the flag is right) -/
+theorem maintTablet_resolved {rm : List Nat} {ns rc : List (Nat × Node)} {t u : Tablet}
+    (h : maintTablet rm ns rc t = some u) : u.failed = none := by
+  obtain ⟨t1, h1, _, rfl⟩ := maintTablet_some h
+  have e : (updateStale rc t1).failed = t1.failed := rfl
+  rw [e]
+  unfold reResolve at h1
+  cases hf : t.failed with
+  | none =>
+    simp only [hf, Option.some.injEq] at h1
+    rw [← h1]; exact hf
+  | some raw =>
+    simp only [hf, fromRawReplicas] at h1
+    by_cases hc : (resolveFailed (fun id => alGet id ns) raw).isEmpty = true
+    · simp only [hc, if_true, Option.some.injEq] at h1
+      rw [← h1]
+    · simp [hc] at h1
+
+/-- after maintenance no replica sits on a removed node -/
+theorem maintTablet_no_removed {rm : List Nat} {ns rc : List (Nat × Node)} {t u : Tablet}
+    (h : maintTablet rm ns rc t = some u) (hrc : ∀ id n, alGet id rc = some n → n.hostId = id) :
+    ∀ p ∈ u.replicas.all, p.1.hostId ∉ rm := by
+  obtain ⟨t1, _, htr, rfl⟩ := maintTablet_some h
+  intro p hp
+  simp only [updateStale, List.mem_map] at hp
+  obtain ⟨q, hq, rfl⟩ := hp
+  have hid : (swapNode rc q).1.hostId = q.1.hostId := by
+    unfold swapNode
+    split
+    · rename_i n hn; exact hrc _ _ hn
+    · rfl
+  rw [hid]
+  intro hmem
+  have : touchesRemoved rm t1 = true := by
+    simp only [touchesRemoved, List.any_eq_true]
+    exact ⟨q, hq, by simpa using hmem⟩
+  rw [htr] at this; cases this
+
+private theorem inv_filterMap (f : Tablet → Option Tablet)
+    (hf : ∀ t u, f t = some u → u.first = t.first ∧ u.last = t.last) (l : List Tablet) (h : Inv l) :
+    Inv (l.filterMap f) := by
+  obtain ⟨h1, h2⟩ := h
+  constructor
+  · intro u hu
+    obtain ⟨t, ht, e⟩ := List.mem_filterMap.mp hu
+    have := hf t u e
+    have := h1 t ht
+    omega
+  · refine List.Pairwise.filterMap f ?_ h2
+    intro a a' hr b hb b' hb'
+    have := hf a b hb
+    have := hf a' b' hb'
+    omega
+
+/-- **`Inv` is preserved by maintenance** (whatever the flag says). -/
+theorem inv_maintenance (tbl : Table) (h : Inv tbl.tablets) (rm : List Nat) (ns rc : List (Nat × Node)) :
+    Inv (tbl.maintenance rm ns rc).tablets := by
+  unfold Table.maintenance
+  simp only []
+  have s1 : Inv (if tbl.hasUnknown = true then tbl.tablets.filterMap (reResolve (fun id => alGet id ns)) else tbl.tablets) := by
+    split
+    · apply inv_filterMap _ _ _ h
+      intro t u e
+      rcases reResolve_range e with ⟨a, _⟩ | e'
+      · exact a
+      · rw [e']; exact ⟨rfl, rfl⟩
+    · exact h
+  generalize (if tbl.hasUnknown = true then tbl.tablets.filterMap (reResolve (fun id => alGet id ns)) else tbl.tablets) = l1 at s1
+  have s2 : Inv (if rm.isEmpty = true then l1 else l1.filter (fun t => !touchesRemoved rm t)) := by
+    split
+    · exact s1
+    · exact ⟨fun t ht => s1.1 t (List.mem_filter.mp ht).1, s1.2.filter _⟩
+  generalize (if rm.isEmpty = true then l1 else l1.filter (fun t => !touchesRemoved rm t)) = l2 at s2
+  split
+  · exact s2
+  · rw [← List.filterMap_eq_map]
+    apply inv_filterMap _ _ _ s2
+    intro t u e
+    simp only [Function.comp, Option.some.injEq] at e
+    rw [← e]; exact ⟨rfl, rfl⟩
+
+/-! ### histories: the invariant and the refinement of lookups -/
+
+inductive Op where
+  /-- a tablet learnt from the server (`add_tablet`) -/
+  | insert (t : Tablet)
+  /-- topology maintenance: removed host ids, all current nodes, re-created nodes -/
+  | maint (removed : List Nat) (nodes recreated : List (Nat × Node))
+
+def step (tbl : Table) : Op → Table
+  | .insert t => (tbl.addTablet t).1
+  | .maint rm ns rc => tbl.maintenance rm ns rc
+
+def run (hist : List Op) : Table := hist.foldl step Table.empty
+
+/-- every learnt tablet is a non-empty range (what `from_custom_payload` guarantees: `payload_range`) -/
+def ValidHist (hist : List Op) : Prop := ∀ t, Op.insert t ∈ hist → t.first ≤ t.last
+
+/-- **The specification of a lookup, read off the history alone** (newest operation first): the most recently
+learnt tablet covering the token — unless a later insert overlapped it or a later maintenance step discarded
+it, in which case nothing; maintenance steps the answer passes through transform its replicas. -/
+def lookupSpecRev : List Op → Int → Option Tablet
+  | [], _ => none
+  | .insert t :: older, tok =>
+    if covers tok t then some t
+    else match lookupSpecRev older tok with
+      | some u => if overlaps u t then none else some u
+      | none => none
+  | .maint rm ns rc :: older, tok => (lookupSpecRev older tok).bind (maintTablet rm ns rc)
+
+def lookupSpec (hist : List Op) (tok : Int) : Option Tablet := lookupSpecRev hist.reverse tok
+
+def Good (tbl : Table) : Prop := Inv tbl.tablets ∧ FlagInv tbl
+
+private theorem opt_ext {α : Type} {a b : Option α} (h : ∀ w, a = some w ↔ b = some w) : a = b := by
+  cases a with
+  | none =>
+    cases b with
+    | none => rfl
+    | some y => exact ((h y).mpr rfl)
+  | some x => exact ((h x).mp rfl).symm
+
+private theorem good_insert (tbl : Table) (hg : Good tbl) (t : Tablet) (ht : t.first ≤ t.last) :
+    Good (step tbl (.insert t)) ∧ addTabletList tbl.tablets t = some (step tbl (.insert t)).tablets := by
+  obtain ⟨hinv, hflag⟩ := hg
+  have heq := addTabletList_eq tbl.tablets t hinv ht
+  have hstep : step tbl (.insert t) = ⟨tbl.tablets.filter (fun u => decide (u.last < t.first)) ++
+      t :: tbl.tablets.filter (fun u => decide (t.last < u.first)), tbl.hasUnknown || t.failed.isSome⟩ := by
+    simp only [step, Table.addTablet, heq]
+  rw [hstep]
+  refine ⟨⟨inv_addTablet _ t hinv ht _ heq, ?_⟩, heq⟩
+  intro hf u hu
+  simp only [Bool.or_eq_false_iff] at hf
+  rcases (add_keeps_iff _ t hinv ht _ heq u).mp hu with rfl | ⟨hm, _⟩
+  · cases h : u.failed with
+    | none => rfl
+    | some r => rw [h] at hf; simp at hf
+  · exact hflag hf.1 u hm
+
+private theorem good_maint (tbl : Table) (hg : Good tbl) (rm : List Nat) (ns rc : List (Nat × Node)) :
+    Good (step tbl (.maint rm ns rc)) := by
+  obtain ⟨hinv, hflag⟩ := hg
+  refine ⟨inv_maintenance tbl hinv rm ns rc, ?_⟩
+  intro _ u hu
+  simp only [step] at hu
+  rw [(maintenance_eq_filterMap tbl hflag rm ns rc).1] at hu
+  obtain ⟨t, _, e⟩ := List.mem_filterMap.mp hu
+  exact maintTablet_resolved e
+
+private theorem lookup_after_insert (xs ys : List Tablet) (new : Tablet) (h : Inv xs) (hn : new.first ≤ new.last)
+    (hy : addTabletList xs new = some ys) (tok : Int) :
+    tabletForToken ys tok =
+      if covers tok new then some new
+      else match tabletForToken xs tok with
+        | some u => if overlaps u new then none else some u
+        | none => none := by
+  have hinvy := inv_addTablet xs new h hn ys hy
+  apply opt_ext
+  intro w
+  rw [lookup_some_iff ys hinvy, add_keeps_iff xs new h hn ys hy]
+  by_cases hc : covers tok new = true
+  · rw [if_pos hc]
+    simp only [Option.some.injEq]
+    simp only [covers, Bool.and_eq_true, decide_eq_true_eq] at hc
+    constructor
+    · rintro ⟨rfl | ⟨_, ho⟩, hw⟩
+      · rfl
+      · simp only [overlaps, Bool.and_eq_false_iff, decide_eq_false_iff_not] at ho
+        omega
+    · rintro rfl
+      exact ⟨Or.inl rfl, hc⟩
+  · rw [if_neg hc]
+    simp only [covers, Bool.and_eq_true, decide_eq_true_eq] at hc
+    cases hl : tabletForToken xs tok with
+    | none =>
+      have hnone := (lookup_none_iff xs h tok).mp hl
+      simp only [reduceCtorEq, iff_false]
+      rintro ⟨rfl | ⟨hm, _⟩, hw⟩
+      · exact hc hw
+      · exact hnone w hm hw
+    | some u =>
+      obtain ⟨hum, huc⟩ := (lookup_some_iff xs h tok u).mp hl
+      have uniq : ∀ w, w ∈ xs → (w.first ≤ tok ∧ tok ≤ w.last) → w = u := by
+        intro w hm hw
+        have := (lookup_some_iff xs h tok w).mpr ⟨hm, hw⟩
+        rw [hl] at this
+        exact (Option.some.inj this).symm
+      cases ho : overlaps u new
+      · simp only [ho, Bool.false_eq_true, if_false, Option.some.injEq]
+        constructor
+        · rintro ⟨rfl | ⟨hm, _⟩, hw⟩
+          · exact absurd hw hc
+          · exact (uniq w hm hw).symm
+        · rintro rfl
+          exact ⟨Or.inr ⟨hum, ho⟩, huc⟩
+      · simp only [ho, if_true, reduceCtorEq, iff_false]
+        rintro ⟨rfl | ⟨hm, hno⟩, hw⟩
+        · exact hc hw
+        · rw [uniq w hm hw, ho] at hno
+          cases hno
+
+private theorem lookup_after_filterMap (xs : List Tablet) (h : Inv xs) (f : Tablet → Option Tablet)
+    (hf : ∀ t u, f t = some u → u.first = t.first ∧ u.last = t.last) (tok : Int) :
+    tabletForToken (xs.filterMap f) tok = (tabletForToken xs tok).bind f := by
+  apply opt_ext
+  intro w
+  rw [lookup_some_iff _ (inv_filterMap f hf xs h), Option.bind_eq_some_iff]
+  constructor
+  · rintro ⟨hm, hw⟩
+    obtain ⟨t, ht, e⟩ := List.mem_filterMap.mp hm
+    have := hf t w e
+    exact ⟨t, (lookup_some_iff xs h tok t).mpr ⟨ht, by omega⟩, e⟩
+  · rintro ⟨t, hl, e⟩
+    obtain ⟨ht, hc⟩ := (lookup_some_iff xs h tok t).mp hl
+    have := hf t w e
+    exact ⟨List.mem_filterMap.mpr ⟨t, ht, e⟩, by omega⟩
+
+private theorem run_snoc (hist : List Op) (op : Op) : run (hist ++ [op]) = step (run hist) op := by
+  simp [run, List.foldl_append]
+
+private theorem main_induction (rh : List Op) (hv : ValidHist rh.reverse) :
+    Good (run rh.reverse) ∧ ∀ tok, tabletForToken (run rh.reverse).tablets tok = lookupSpecRev rh tok := by
+  induction rh with
+  | nil =>
+    refine ⟨⟨⟨?_, List.Pairwise.nil⟩, ?_⟩, ?_⟩
+    · intro t ht; simp [run, Table.empty] at ht
+    · intro _ t ht; simp [run, Table.empty] at ht
+    · intro tok; rfl
+  | cons op rh ih =>
+    have hv' : ValidHist rh.reverse := by
+      intro t ht
+      apply hv t
+      simp only [List.reverse_cons, List.mem_append]
+      exact Or.inl ht
+    obtain ⟨hg, hl⟩ := ih hv'
+    simp only [List.reverse_cons, run_snoc]
+    cases op with
+    | insert t =>
+      have ht : t.first ≤ t.last := by
+        apply hv t
+        simp [List.reverse_cons]
+      obtain ⟨hg', hy⟩ := good_insert _ hg t ht
+      refine ⟨hg', ?_⟩
+      intro tok
+      rw [lookup_after_insert _ _ t hg.1 ht hy tok, hl tok]
+      rfl
+    | maint rm ns rc =>
+      refine ⟨good_maint _ hg rm ns rc, ?_⟩
+      intro tok
+      simp only [step]
+      rw [(maintenance_eq_filterMap _ hg.2 rm ns rc).1,
+        lookup_after_filterMap _ hg.1 _ (fun t u e => maintTablet_range e) tok, hl tok]
+      rfl
+
+/-- **The invariant holds after every history** of inserts and maintenance steps, of any length. -/
+theorem inv_run (hist : List Op) (hv : ValidHist hist) : Inv (run hist).tablets := by
+  have := (main_induction hist.reverse (by rwa [List.reverse_reverse])).1.1
+  rwa [List.reverse_reverse] at this
+
+/-- the flag is never falsely false, after every history -/
+theorem flag_run (hist : List Op) (hv : ValidHist hist) : FlagInv (run hist) := by
+  have := (main_induction hist.reverse (by rwa [List.reverse_reverse])).1.2
+  rwa [List.reverse_reverse] at this
+
+/-- no insert of a valid history panics -/
+theorem run_no_panic (hist : List Op) (t : Tablet) (hv : ValidHist (hist ++ [.insert t])) :
+    ((run hist).addTablet t).2 = true := by
+  have hinv := inv_run hist (fun u hu => hv u (List.mem_append_left _ hu))
+  have ht := hv t (by simp)
+  simp only [Table.addTablet, addTabletList_eq _ t hinv ht]
+
+/-- **Lookups refine the history specification**: after every history, `tablet_for_token` (binary search on
+the maintained list) answers exactly the latest insert covering the token unless a later insert overlapped it or
+maintenance discarded it — then nothing; never a stale tablet. -/
+theorem lookup_refines (hist : List Op) (hv : ValidHist hist) (tok : Int) :
+    tabletForToken (run hist).tablets tok = lookupSpec hist tok := by
+  have := (main_induction hist.reverse (by rwa [List.reverse_reverse])).2 tok
+  rwa [List.reverse_reverse] at this
+
+/-- never stale, spelled out: whatever is answered covers the token and comes from an insert of the history
+(with the same range) — an overlapped or discarded tablet is never returned. -/
+theorem lookup_never_stale (hist : List Op) (hv : ValidHist hist) (tok : Int) (u : Tablet)
+    (h : tabletForToken (run hist).tablets tok = some u) :
+    u.first ≤ tok ∧ tok ≤ u.last ∧ ∃ t, Op.insert t ∈ hist ∧ t.first = u.first ∧ t.last = u.last := by
+  have hc := ((lookup_some_iff _ (inv_run hist hv) tok u).mp h).2
+  refine ⟨hc.1, hc.2, ?_⟩
+  rw [lookup_refines hist hv] at h
+  unfold lookupSpec at h
+  have key : ∀ rh u, lookupSpecRev rh tok = some u → ∃ t, Op.insert t ∈ rh ∧ t.first = u.first ∧ t.last = u.last := by
+    intro rh
+    induction rh with
+    | nil => intro u h; cases h
+    | cons op rh ih =>
+      intro u h
+      cases op with
+      | insert t =>
+        simp only [lookupSpecRev] at h
+        split at h
+        · cases h; exact ⟨u, List.mem_cons_self, rfl, rfl⟩
+        · split at h
+          · split at h
+            · cases h
+            · cases h
+              rename_i v hv' _
+              obtain ⟨t', hm, e⟩ := ih u hv'
+              exact ⟨t', List.mem_cons_of_mem _ hm, e⟩
+          · cases h
+      | maint rm ns rc =>
+        simp only [lookupSpecRev, Option.bind_eq_some_iff] at h
+        obtain ⟨v, hv', e⟩ := h
+        obtain ⟨t', hm, e1, e2⟩ := ih v hv'
+        have := maintTablet_range e
+        exact ⟨t', List.mem_cons_of_mem _ hm, by omega, by omega⟩
+  obtain ⟨t, hm, e⟩ := key hist.reverse u h
+  exact ⟨t, List.mem_reverse.mp hm, e⟩
+
+-- non-vacuity: a history with an overlap, a touching insert and a maintenance step that discards a tablet
+private def nd (id : Nat) : Node := ⟨id, some "dc1", id⟩
+private def tr (f l : Int) (ids : List Nat) : Tablet := ⟨f, l, ⟨ids.map fun i => (nd i, 0), []⟩, none⟩
+private def hist1 : List Op :=
+  [.insert (tr 1 5 [1]), .insert (tr 6 9 [2]), .insert (tr 4 6 [1]), .insert (tr 7 8 [2]), .maint [2] [(1, nd 1)] []]
+example : ValidHist hist1 := by
+  intro t ht
+  simp only [hist1, List.mem_cons, Op.insert.injEq, List.not_mem_nil, or_false, reduceCtorEq] at ht
+  rcases ht with rfl | rfl | rfl | rfl <;> decide
+example : (run hist1).tablets = [tr 4 6 [1]] ∧ lookupSpec hist1 5 = some (tr 4 6 [1]) ∧
+    lookupSpec hist1 2 = none ∧ lookupSpec hist1 7 = none := by decide
+
+/-! ### replicas restricted to a datacenter -/
+
+/-- the per-datacenter view of a tablet is the order-preserving restriction of its full replica list -/
+def DcOk (t : Tablet) : Prop :=
+  ∀ dc : String, dcReplicas t dc = t.replicas.all.filter (fun p => decide (p.1.dc = some dc))
+
+private theorem group_foldl (xs : List Rep) :
+    ∀ (m : List (String × List Rep)) (l : List Rep),
+      (∀ dc, (alGet dc m).getD [] = l.filter (fun p => decide (p.1.dc = some dc))) →
+      ∀ dc, (alGet dc (xs.foldl dcPush m)).getD [] = (l ++ xs).filter (fun p => decide (p.1.dc = some dc)) := by
+  induction xs with
+  | nil => intro m l h dc; simpa using h dc
+  | cons p xs ih =>
+    intro m l h dc
+    have step : ∀ dc, (alGet dc (dcPush m p)).getD [] = (l ++ [p]).filter (fun p => decide (p.1.dc = some dc)) := by
+      intro dc
+      unfold dcPush
+      cases hd : p.1.dc with
+      | none =>
+        simp only [List.filter_append, List.filter_cons, hd, reduceCtorEq, decide_false, Bool.false_eq_true, if_false,
+          List.filter_nil, List.append_nil]
+        exact h dc
+      | some d =>
+        simp only [alGet_alPush]
+        by_cases e : dc = d
+        · subst e
+          simp only [if_true, Option.getD_some, List.filter_append, List.filter_cons, hd, decide_true,
+            List.filter_nil]
+          rw [h dc]
+        · have e' : ¬ (d = dc) := fun x => e x.symm
+          simp only [e, if_false, List.filter_append, List.filter_cons, hd, Option.some.injEq, e', decide_false,
+            Bool.false_eq_true, List.filter_nil, List.append_nil]
+          exact h dc
+    have := ih (dcPush m p) (l ++ [p]) step dc
+    simpa [List.foldl_cons, List.append_assoc] using this
+
+/-- **The grouping loop of `from_raw_replicas` computes the filter**, for every datacenter, order preserved
+(a datacenter without replicas has no entry: the empty slice). -/
+theorem groupByDc_eq_filter (all : List Rep) (dc : String) :
+    (alGet dc (groupByDc all)).getD [] = all.filter (fun p => decide (p.1.dc = some dc)) := by
+  have := group_foldl all [] [] (fun dc => by simp [alGet]) dc
+  simpa [groupByDc] using this
+
+/-- tablets built from a payload (`from_raw_tablet`, resolved or not) satisfy `dc_restrict` -/
+theorem dc_restrict_fromRaw (first last : Int) (raw : List (Nat × Nat)) (tr : Nat → Option Node) :
+    DcOk (Tablet.fromRaw first last raw tr) := by
+  intro dc
+  simp only [Tablet.fromRaw, fromRawReplicas, dcReplicas]
+  exact groupByDc_eq_filter _ dc
+
+private theorem dcOk_reResolve {tr : Nat → Option Node} {t u : Tablet} (h : DcOk t) (e : reResolve tr t = some u) :
+    DcOk u := by
+  unfold reResolve at e
+  cases hf : t.failed with
+  | none =>
+    simp only [hf, Option.some.injEq] at e
+    rw [← e]; exact h
+  | some raw =>
+    simp only [hf, fromRawReplicas] at e
+    by_cases hc : (resolveFailed tr raw).isEmpty = true
+    · simp only [hc, if_true, Option.some.injEq] at e
+      rw [← e]
+      intro dc
+      simp only [dcReplicas]
+      exact groupByDc_eq_filter _ dc
+    · simp [hc] at e
+
+private theorem dcOk_updateStale (rc : List (Nat × Node)) {t : Tablet} (h : DcOk t) : DcOk (updateStale rc t) := by
+  intro dc
+  cases hany : t.replicas.all.any (isStaleRep rc)
+  · have hall : t.replicas.all.map (swapNode rc) = t.replicas.all := by
+      have : ∀ p ∈ t.replicas.all, swapNode rc p = p := by
+        intro p hp
+        have hp' : isStaleRep rc p = false := by
+          cases hx : isStaleRep rc p
+          · rfl
+          · have : t.replicas.all.any (isStaleRep rc) = true := List.any_eq_true.mpr ⟨p, hp, hx⟩
+            rw [hany] at this; cases this
+        unfold isStaleRep at hp'
+        unfold swapNode
+        cases hg : alGet p.1.hostId rc with
+        | none => rfl
+        | some n =>
+          simp only [hg] at hp'
+          have : n = p.1 := by simpa using hp'
+          simp only [this]
+      calc t.replicas.all.map (swapNode rc) = t.replicas.all.map id := List.map_congr_left this
+        _ = t.replicas.all := List.map_id _
+    simp only [updateStale, dcReplicas, hany, hall, Bool.false_eq_true, if_false]
+    exact h dc
+  · simp only [updateStale, dcReplicas, hany, if_true]
+    exact groupByDc_eq_filter _ dc
+
+/-- maintenance (re-resolution, re-created nodes — also in another datacenter) preserves `dc_restrict` -/
+theorem dc_restrict_maint {rm : List Nat} {ns rc : List (Nat × Node)} {t u : Tablet} (h : DcOk t)
+    (e : maintTablet rm ns rc t = some u) : DcOk u := by
+  obtain ⟨t1, h1, _, rfl⟩ := maintTablet_some e
+  exact dcOk_updateStale rc (dcOk_reResolve h h1)
+
+/-- **dc_restrict after every history**: if every learnt tablet was built by `from_raw_tablet` (or just satisfies
+`DcOk`), then for every token and datacenter the dc-restricted answer is the full answer filtered by the
+replica's datacenter, in the same order. -/
+theorem dc_restrict (hist : List Op) (hv : ValidHist hist) (hdc : ∀ t, Op.insert t ∈ hist → DcOk t)
+    (tok : Int) (dc : String) :
+    dcReplicasForToken (run hist).tablets tok dc =
+      (replicasForToken (run hist).tablets tok).map (fun all => all.filter (fun p => decide (p.1.dc = some dc))) := by
+  have key : ∀ rh : List Op, (∀ t, Op.insert t ∈ rh → DcOk t) → ∀ u, lookupSpecRev rh tok = some u → DcOk u := by
+    intro rh
+    induction rh with
+    | nil => intro _ u h; cases h
+    | cons op rh ih =>
+      intro hd u h
+      have ih' := ih (fun t ht => hd t (List.mem_cons_of_mem _ ht))
+      cases op with
+      | insert t =>
+        simp only [lookupSpecRev] at h
+        split at h
+        · cases h; exact hd u List.mem_cons_self
+        · split at h
+          · split at h
+            · cases h
+            · cases h
+              rename_i v hv' _
+              exact ih' u hv'
+          · cases h
+      | maint rm ns rc =>
+        simp only [lookupSpecRev, Option.bind_eq_some_iff] at h
+        obtain ⟨v, hv', e⟩ := h
+        exact dc_restrict_maint (ih' v hv') e
+  unfold dcReplicasForToken replicasForToken
+  cases hl : tabletForToken (run hist).tablets tok with
+  | none => rfl
+  | some u =>
+    rw [lookup_refines hist hv] at hl
+    have := key hist.reverse (fun t ht => hdc t (List.mem_reverse.mp ht)) u hl
+    simp only [Option.map_some]
+    rw [this dc]
+
+-- non-vacuity: three replicas in two datacenters and one without datacenter; a node re-created in another datacenter
+private def nA : Node := ⟨1, some "dc1", 0⟩
+private def nB : Node := ⟨2, some "dc2", 1⟩
+private def nC : Node := ⟨3, none, 2⟩
+private def nA' : Node := ⟨1, some "dc2", 3⟩
+private def trn (id : Nat) : Option Node := alGet id [(1, nA), (2, nB), (3, nC)]
+example : dcReplicas (Tablet.fromRaw 1 5 [(1, 0), (2, 1), (9, 0), (3, 2), (1, 7)] trn) "dc1" = [(nA, 0), (nA, 7)] ∧
+    dcReplicas (Tablet.fromRaw 1 5 [(1, 0), (2, 1), (9, 0), (3, 2), (1, 7)] trn) "dc3" = [] := by decide
+example : dcReplicas (updateStale [(1, nA')] (Tablet.fromRaw 1 5 [(1, 0), (2, 1), (3, 2)] trn)) "dc2" = [(nA', 0), (nB, 1)] ∧
+    dcReplicas (updateStale [(1, nA')] (Tablet.fromRaw 1 5 [(1, 0), (2, 1), (3, 2)] trn)) "dc1" = [] := by decide
+
+/-! ### payload validation -/
+
+private theorem collectReplicas_not_wrongrange (reps : List (Option (Nat × Int))) :
+    collectReplicas reps ≠ .error .wrongrange := by
+  induction reps with
+  | nil => simp [collectReplicas]
+  | cons x xs ih =>
+    cases x with
+    | none => simp [collectReplicas]
+    | some p =>
+      obtain ⟨id, shard⟩ := p
+      simp only [collectReplicas]
+      split
+      · simp
+      · cases hc : collectReplicas xs with
+        | ok l => simp
+        | error e =>
+          simp only [ne_eq, Except.error.injEq]
+          intro he; subst he; exact ih hc
+
+/-- **payload_range**: an accepted payload `(a, b]` has `a < b` and becomes the tablet `[a+1, b]`; with `i64`
+bounds the `+ 1` does not overflow, neither end is `i64::MIN` (so `Token::new` changes nothing) and the tablet is
+a non-empty range — exactly the hypothesis `ValidHist` of the history theorems. -/
+theorem payload_range (a b : Int) (reps : List (Option (Nat × Int))) (f l : Int) (r : List (Nat × Nat))
+    (ha : i64Min ≤ a ∧ a ≤ i64Max) (hb : i64Min ≤ b ∧ b ≤ i64Max)
+    (h : rawTabletCheck a b reps = .ok (f, l, r)) :
+    a < b ∧ f = a + 1 ∧ l = b ∧ f ≤ l ∧ i64Min < f ∧ l ≤ i64Max ∧ a + 1 ≤ i64Max := by
+  unfold rawTabletCheck at h
+  by_cases hba : b ≤ a
+  · simp [hba] at h
+  · simp only [hba, if_false] at h
+    cases hc : collectReplicas reps with
+    | error e => simp [hc] at h
+    | ok rl =>
+      simp only [hc, Except.ok.injEq, Prod.mk.injEq] at h
+      obtain ⟨h1, h2, _⟩ := h
+      unfold tokenNew at h1 h2
+      unfold i64Min i64Max at *
+      split at h1 <;> split at h2 <;> omega
+
+/-- rejected as a wrong range iff `b ≤ a` (checked before the replicas are looked at) -/
+theorem payload_wrongrange_iff (a b : Int) (reps : List (Option (Nat × Int))) :
+    rawTabletCheck a b reps = .error .wrongrange ↔ b ≤ a := by
+  unfold rawTabletCheck
+  by_cases hba : b ≤ a
+  · simp [hba]
+  · simp only [hba, if_false, iff_false]
+    cases hc : collectReplicas reps with
+    | error e =>
+      simp only [Except.error.injEq]
+      intro he; subst he; exact collectReplicas_not_wrongrange reps hc
+    | ok rl => simp
+
+/-- accepted iff the range is non-empty and every replica deserialises with a non-negative shard;
+the replicas are then kept in order -/
+theorem payload_accept_iff (a b : Int) (reps : List (Option (Nat × Int))) :
+    (∃ v, rawTabletCheck a b reps = .ok v) ↔
+      a < b ∧ ∀ x ∈ reps, ∃ id shard, x = some (id, shard) ∧ 0 ≤ shard := by
+  have key : ∀ reps : List (Option (Nat × Int)), (∃ l, collectReplicas reps = .ok l) ↔
+      ∀ x ∈ reps, ∃ id shard, x = some (id, shard) ∧ 0 ≤ shard := by
+    intro reps
+    induction reps with
+    | nil => simp [collectReplicas]
+    | cons x xs ih =>
+      cases x with
+      | none => simp [collectReplicas]
+      | some p =>
+        obtain ⟨id, shard⟩ := p
+        simp only [collectReplicas, List.mem_cons, forall_eq_or_imp, Option.some.injEq, Prod.mk.injEq]
+        by_cases hs : shard < 0
+        · simp only [hs, if_true, reduceCtorEq, exists_false, false_iff, not_and]
+          intro ⟨i, s, ⟨_, e⟩, h0⟩
+          omega
+        · simp only [hs, if_false]
+          rw [← ih]
+          constructor
+          · rintro ⟨l, hl⟩
+            refine ⟨⟨id, shard, ⟨rfl, rfl⟩, by omega⟩, ?_⟩
+            cases hc : collectReplicas xs with
+            | ok l' => exact ⟨l', rfl⟩
+            | error e => simp [hc] at hl
+          · rintro ⟨_, l, hl⟩
+            exact ⟨(id, shard.toNat) :: l, by simp [hl]⟩
+  unfold rawTabletCheck
+  by_cases hba : b ≤ a
+  · simp only [hba, if_true, reduceCtorEq, exists_false, false_iff, not_and]
+    intro h; omega
+  · simp only [hba, if_false]
+    rw [← key]
+    constructor
+    · rintro ⟨v, hv⟩
+      refine ⟨by omega, ?_⟩
+      cases hc : collectReplicas reps with
+      | ok l => exact ⟨l, rfl⟩
+      | error e => simp [hc] at hv
+    · rintro ⟨_, l, hl⟩
+      exact ⟨(tokenNew (a + 1), tokenNew b, l), by simp [hl]⟩
+
+example : rawTabletCheck (i64Max - 1) i64Max [some (7, 3), some (8, 0)] = .ok (i64Max, i64Max, [(7, 3), (8, 0)]) ∧
+    rawTabletCheck i64Min (i64Min + 1) [] = .ok (i64Min + 1, i64Min + 1, []) ∧
+    rawTabletCheck 5 5 [] = .error .wrongrange ∧ rawTabletCheck 6 5 [some (1, -1)] = .error .wrongrange ∧
+    rawTabletCheck 1 5 [some (1, -1)] = .error .shardnum ∧ rawTabletCheck 1 5 [some (1, 0), none] = .error .deserialization :=
+  ⟨rfl, rfl, rfl, rfl, rfl, rfl⟩
+
 end ScyllaVerif.Props.C15
